@@ -62,6 +62,25 @@ fn verif_grid() {
             g.case(&format!("aggregate-b{}-s{}", bi, si), move || check(T, p, d, &b1));
         } }
     }
+    // one engine refreshing its table line after line (follow mode): every shown table is the DISTINCT table of the lines so far
+    for (bi, base) in sequences(&pool5, 4).into_iter().enumerate() {
+        if base.len() < 2 || (base.len() == 4 && bi % 4 != 0) { continue; }
+        for (si, (_, d)) in aggregate.iter().enumerate() {
+            let b1 = base.clone();
+            g.case(&format!("refresh-b{}-s{}", bi, si), move || {
+                let shown = incremental(T, d, &b1)?;
+                for k in 1..=b1.len() {
+                    if let Some(table) = &shown[k - 1] {
+                        match q(T, d, &b1[..k]) {
+                            Outcome::Lines(batch, _) => if *table != batch { return Err(format!("{} fed line by line over {:?}: the table shown after line {} is {:?}; the DISTINCT table of those lines is {:?}", d, b1, k, table, batch)); },
+                            other => return Err(format!("{:?}", other)),
+                        }
+                    }
+                }
+                Ok(())
+            });
+        }
+    }
     // REAL values: numbers by value
     let rdef = "CREATE TABLE t(line = '^x=(\\\\S+)$', line[1] => x REAL);";
     let rpool = ["x=0.0", "x=-0.0", "x=1", "x=1.0", "x=1.5"];
